@@ -16,7 +16,7 @@ ENGINES = [None, "numpy", "flox", "numba", "numbagg"]
 METHODS = [None, "map-reduce", "cohorts", "blockwise"]
 REINDEX = [None, True, False]
 LABELKIND = ["numpy", "dask"]
-NDIM = [1, 2]
+NDIM = [1, 2, 3]
 AXIS = ["all", "last"]
 EXPECTED = [True, False]
 LAYOUT = ["one-block", "few-blocks", "many-blocks", "none-present"]
@@ -46,9 +46,12 @@ def inputs_for(cell, variant=0):
         vals = vals > 0
     if cell["layout"] == "none-present":
         labels = labels + 10
-    if cell["ndim"] == 2:
+    if cell["ndim"] >= 2:
         vals = np.stack([vals, vals[::-1]])
         labels = np.stack([labels, labels]) if cell["axis"] == "all" else np.stack([labels, (labels + 1) % 4 + (10 if cell["layout"] == "none-present" else 0)])
+    if cell["ndim"] == 3:   # labels of three dimensions: three reduced axes when axis is 'all'
+        vals = np.stack([vals, vals + 1])
+        labels = np.stack([labels, labels])
     if variant == 0:
         chunks = {"one-block": (n,), "few-blocks": (3, 6, 3), "many-blocks": (3, 3, 3, 3), "none-present": (6, 6)}[cell["layout"]]
     else:
@@ -68,7 +71,7 @@ def run_cell(cell, variant=0):
 
     vals, labels, chunks = inputs_for(cell, variant)
     # blockwise precondition for 2-D labels: the first axis stays in one block (every group inside one block)
-    full_chunks = (((2,) if variant == 0 else (1, 1)),) + (chunks,) if cell["ndim"] == 2 else (chunks,)
+    full_chunks = (((2,) if variant == 0 else (1, 1)),) * (cell["ndim"] - 1) + (chunks,)
     arr = da.from_array(vals, chunks=full_chunks)
     by = labels
     if cell["labelkind"] == "dask":
@@ -77,7 +80,7 @@ def run_cell(cell, variant=0):
     if cell["expected"]:
         kw["expected_groups"] = np.arange(4)
         kw["fill_value"] = -1 if cell["func"] not in ("any", "all") else False
-    if cell["axis"] == "last" and cell["ndim"] == 2:
+    if cell["axis"] == "last" and cell["ndim"] >= 2:
         kw["axis"] = -1
     if "quantile" in cell["func"]:
         kw["finalize_kwargs"] = {"q": 0.5}
